@@ -7,7 +7,7 @@ func init() {
 		Rule: "seeded schedules = job configuration (DatasetSource or UnionDatasetSource with disjoint id pools, +-LatestOnly per member, DatasetSink or HttpDatasetSink->loopback, incremental / fullsync / both triggers, batch size 1..7, same or fresh job objects per run) + source writes interleaved with runs and idle re-runs. Each schedule is executed fault-free (probe: equality after every run, idle-run no-op, measures batches per run), then once per fault (quick: one kill-inside-a-batch-with-immediate-restart of an incremental run, one sink-400, one KillJob-from-hook, one SIGKILL-in-sub-child, at probe-measured batch indexes; thorough: every hit index x {sink 400, kill, crash} x {afterSink, afterToken | afterEndFullSync} x recovery type of the run with most batches). After a faulty run: token-vs-sink check, recovery run, equality, idle run, rest of the schedule. Case = (schedule, fault); One extra case per run (stage bigpage): 264 entities of 100 KB enter the source in six writes and are copied with the hub's default batch size, i.e. as ONE 26 MB page, more than the store takes in one transaction (about 19 MB): the run either fails by itself (then the token-vs-sink check applies) or reports success (then equality as always); counted non-trivial when the page measured > 20 MB. Otherwise non-trivial = the fault FIRED (measured) at a batch boundary with >=1 batch delivered before and >=1 batch pending after (batches measured by the probe)",
 		Assumptions: []string{
 			"latest views are compared per entity id, tombstones included: an entity the source lists (live or deleted) must be listed by the sink with the same deleted flag; the content of a tombstone is not compared",
-			"kill-and-restart cases: run A is held inside one batch (HTTP sink: the remote end holds the request; dataset sink: at the hook after the sink write, before the token store), killed, the job is started again at once, then A is let go; the second run must not write to the sink while A is in progress, and the token of an incremental job never goes backwards (also checked across every incremental run)",
+			"kill-and-restart cases (incremental and fullsync runs): run A is held while the sink write of one batch is in flight (HTTP sink: the remote end holds the request; dataset sink: A waits in front of the sink dataset's write lock), killed, the job is requested again at once through Scheduler.RunJob (refused or accepted), the monitor waits for the recorded end of that run, then A is let go and awaited; the second run must not write to the sink while A is in progress, and the token of an incremental job never goes backwards (also checked across every incremental run)",
 			"union members have disjoint id pools",
 			"idle run: decoded token and sink latest view unchanged; sink change feed unchanged only for incremental runs",
 			"a run refused by the remote end because an abandoned full sync still holds its lease is a failed run (allowed); the monitor waits for the lease-expiry event and runs again",
